@@ -45,7 +45,7 @@ BOUNDS = {
     "quick": "orders 2-4, mode sizes 2 (one 3), rank 1-2, K <= 3 sweeps (8 for the line-search branch), option sets listed in configs(); randomised_parafac on 2x2 with 1-2 sampled rows (every index draw forked)",
     "thorough": "same plus rank 3 on 3x3x3 and 4 sweeps",
 }
-OUTSIDE = ["order-4 HOOI (shape (2,2,2,2), rank 1) and PARAFAC2 with slice heights (3,2) at rank 2 with normalisation: the value identity was left undecided by z3 within 100 s per query (measured), so these sizes are outside the claim", "CMTF: the docstring writes the reported quantity with factors 1/2, the code reports it without; the check uses the code's form (documentation mismatch, not a value defect)", "masked Tucker/HOOI (which quantity is 'the' error of a masked iterate -- observed entries or the tensor imputed from the previous iterate -- is not fixed by the property; observed while building: partial_tucker keeps the norm of the un-imputed tensor)", "more sweeps than K (covered inductively only because kernels are havoc'd)", "sizes > 3", "IEEE rounding except the explicit sqrt-argument obligation"]
+OUTSIDE = ["PARAFAC2 line search, the path on which the extrapolated jump is accepted (1 of 8 paths of the K=7 configuration): the value identity after the re-computed Givens projections stays `unknown` (reported as INCONCLUSIVE, not as proved)", "order-4 HOOI (shape (2,2,2,2), rank 1) and PARAFAC2 with slice heights (3,2) at rank 2 with normalisation: the value identity was left undecided by z3 within 100 s per query (measured), so these sizes are outside the claim", "CMTF: the docstring writes the reported quantity with factors 1/2, the code reports it without; the check uses the code's form (documentation mismatch, not a value defect)", "masked Tucker/HOOI (which quantity is 'the' error of a masked iterate -- observed entries or the tensor imputed from the previous iterate -- is not fixed by the property; observed while building: partial_tucker keeps the norm of the un-imputed tensor)", "more sweeps than K (covered inductively only because kernels are havoc'd)", "sizes > 3", "IEEE rounding except the explicit sqrt-argument obligation"]
 TRUSTED = ["z3", "havoc/Givens kernel stubs", "sum-of-squares >= 0 lemmas (valid by construction)"]
 ASSUMPTIONS = ["data tensor is not identically zero (division by its norm)", "real arithmetic except the rounding-robustness obligation on sqrt arguments"]
 
